@@ -14,7 +14,7 @@ RULE = ("1..4 TPDOs with generated mappings (1..8 objects of 1/2/3/4 bytes, <= 8
         "(inhibit, event, trigger offset) in {0..6}^3 x 10 ticks (every relative order and coincidence of trigger, inhibit end and event expiry); non-trivial = history with >= 1 deferred (inhibited) transmission, event "
         "expiry or n-th-SYNC transmission; distinct by script")
 ASSUMPTIONS = ["times are whole numbers of ticks (10 kHz timer: 100 us = 1 tick; 1 MHz timer: 100 ticks)", "first event-timer expiry after activation accepted in [E, E+CO_TPDO_N-1]",
-               "RTR and transmission types 0, 241..253 are not generated",
+               "RTR and transmission types 0, 241..253 are not generated", "synchronous TPDOs are not triggered by the application and map no asynchronous objects (the property does not say what such a trigger does)",
                "the inhibit time is only changed while the node is not OPERATIONAL"]
 VARIANTS = ["asan"]
 
@@ -180,6 +180,11 @@ def gen_world(rng, sweep=None):
         maps, total = [], 0
         cand = pool[:]
         rng.shuffle(cand)
+        typ0 = rng.choice([254, 255, 254, 255, 1, 2, 3, 10, 240])
+        if typ0 <= 240:
+            # what an application trigger or a changed asynchronous object does to a SYNCHRONOUS TPDO is not stated by the property:
+            # synchronous TPDOs map objects without the asynchronous flag only and are never triggered by number
+            cand = [c_ for c_ in cand if not (objs[(c_[0], c_[1])][1] & A)] or cand[:0]
         for (idx, sub, w) in cand[:rng.randint(1, 8)]:
             bits = 8 * w
             if w == 4 and rng.random() < 0.3:
@@ -196,7 +201,7 @@ def gen_world(rng, sweep=None):
             cfg.objs = [o for o in cfg.objs if not (o.idx == 0x2100 and o.sub == 0)]
             cfg.add(var(0x2100, 0, objs[(0x2100, 0)][1], objs[(0x2100, 0)][0], objs[(0x2100, 0)][2]))
         else:
-            typ = rng.choice([254, 255, 254, 255, 1, 2, 3, 10, 240])
+            typ = typ0
             inh = rng.choice([0, 0, 1, 2, 3, 5, 10, 50] + ([700, 1000] if freq > 10000 else []))
             ev = rng.choice([0, 0, 1, 2, 5, 10] + ([70, 100] if freq > 10000 else []))        # ms -> 10 ticks each at 10 kHz
         cob = 0x40000180 + 0x100 * num
@@ -334,11 +339,15 @@ def run_history(res, exe, rng, first, sweep=None):
                 if code is not None:
                     fail("sdo", "write to application object refused: %r" % code); return
             elif op[0] == "trig":
+                if op[1] < len(tps) and tps[op[1]].typ <= 240:
+                    continue
                 script.append("trigger TPDO%d @%d" % (op[1], now))
                 if op[1] < len(tps):
                     m.send(tps[op[1]], now, "trigger")
                 evs = sim.cmd("trigpdo %d" % op[1])
             elif op[0] == "trigobj":
+                if any(tp.typ <= 240 and any((i_, s_) == op[1] for (i_, s_, b_) in tp.maps) for tp in tps):
+                    continue
                 script.append("trigger object %04x:%d @%d" % (op[1][0], op[1][1], now))
                 m.trigger_obj(op[1], now)
                 evs = sim.cmd("trigobj %x %x" % op[1])
